@@ -5,12 +5,16 @@ From LR Require Import lib.Base model.XBinary model.Journal.
 From Coq Require Import ZifyN ZifyNat ZifyBool.
 Open Scope Z_scope.
 
-(* the protocol of a records/model iterator, relative to an abstraction "state s has [l] pending":
-   Get at the end reports EOF and stays at the end; Get on a non-empty state serves the head, any number
+(* the protocol of a records/model iterator, relative to an abstraction "state s has [l] pending, and after
+   them the iterator ends with io.EOF (fl = false) or fails with another error (fl = true)":
+   Get at the end reports the ending and stays there; Get on a non-empty state serves the head, any number
    of times; Next after such a Get drops the head *)
-Definition iter_laws {St R : Type} (get : St -> St * outcome R) (next : St -> St) (Rep : St -> list R -> Prop) : Prop :=
-  (forall s, Rep s [] -> exists s', get s = (s', Err) /\ Rep s' []) /\
-  (forall s r l, Rep s (r :: l) -> exists s', get s = (s', Ok r) /\ Rep s' (r :: l) /\ Rep (next s') l).
+Definition end_res {R : Type} (fl : bool) : outcome (option R) := if fl then Err else Ok None.
+Definition end_err (fl : bool) : werr := if fl then WIter else WNil.
+
+Definition iter_laws {St R : Type} (get : St -> St * outcome (option R)) (next : St -> St) (Rep : St -> list R -> bool -> Prop) : Prop :=
+  (forall s fl, Rep s [] fl -> exists s', get s = (s', end_res fl) /\ Rep s' [] fl) /\
+  (forall s r l fl, Rep s (r :: l) fl -> exists s', get s = (s', Ok (Some r)) /\ Rep s' (r :: l) fl /\ Rep (next s') l fl).
 
 Lemma flat_app a b : flat (a ++ b) = flat a ++ flat b.
 Proof. unfold flat. rewrite map_app, concat_app. reflexivity. Qed.
@@ -49,75 +53,80 @@ Proof. apply last_last. Qed.
 
 Section Refinement.
 Variable St : Type.
-Variable it_get : St -> St * outcome bytes.
+Variable it_get : St -> St * outcome (option bytes).
 Variable it_next : St -> St.
-Variable Rep : St -> list bytes -> Prop.
+Variable Rep : St -> list bytes -> bool -> Prop.
 Hypothesis laws : iter_laws it_get it_next Rep.
 
-(* one chunk: a prefix of the pending records is appended; the loop stops at EOF (everything written)
-   or when the chunk is full; a chunk that is not full at the start takes at least one record *)
-Lemma cw_loop_spec : forall fuel cfg c s n l, Rep s l -> (length l < fuel)%nat ->
+(* one chunk: a prefix of the pending records is appended; the loop stops at the end of the iterator (everything
+   written; the error is nil after io.EOF and the iterator's error otherwise) or when the chunk is full; a chunk
+   that is not full at the start takes at least one record *)
+Lemma cw_loop_spec : forall fuel cfg c s n l fl, Rep s l fl -> (length l < fuel)%nat ->
   exists k c' s' e, cw_loop St it_get it_next fuel cfg c s n = Ok (c', s', (n + k)%nat, e) /\
-    c_recs c' = c_recs c ++ firstn k l /\ c_id c' = c_id c /\ Rep s' (skipn k l) /\ (k <= length l)%nat /\
-    (e = WNil -> k = length l) /\
-    (c_size c < max_chunk cfg -> k = O -> e = WNil /\ l = []).
+    c_recs c' = c_recs c ++ firstn k l /\ c_id c' = c_id c /\ Rep s' (skipn k l) fl /\ (k <= length l)%nat /\
+    (e <> WMaxSize -> k = length l /\ e = end_err fl) /\
+    (c_size c < max_chunk cfg -> k = O -> e = end_err fl /\ l = []).
 Proof.
   destruct laws as [Leof Lget].
-  induction fuel as [|f IH]; intros cfg c s n l HR Hf; [lia|].
+  induction fuel as [|f IH]; intros cfg c s n l fl HR Hf; [lia|].
   cbn [cw_loop].
   destruct (Z.leb_spec (max_chunk cfg) (c_size c)) as [Hfull|Hroom].
   - exists O, c, s, WMaxSize. rewrite Nat.add_0_r. cbn [firstn skipn]. rewrite app_nil_r.
-    repeat split; try assumption; try lia; try discriminate.
+    repeat split; try assumption; try lia; try congruence.
   - destruct l as [|r l'].
-    + destruct (Leof s HR) as (s' & Hg & HR'). rewrite Hg.
-      exists O, c, s', WNil. rewrite Nat.add_0_r. cbn [firstn skipn]. rewrite app_nil_r.
+    + destruct (Leof s fl HR) as (s' & Hg & HR'). rewrite Hg.
+      exists O, c, s', (end_err fl). rewrite Nat.add_0_r. cbn [firstn skipn]. rewrite app_nil_r.
+      split; [destruct fl; reflexivity|].
       repeat split; try assumption; try lia; try reflexivity.
-    + destruct (Lget s r l' HR) as (s' & Hg & _ & HRn). rewrite Hg.
+    + destruct (Lget s r l' fl HR) as (s' & Hg & _ & HRn). rewrite Hg.
       set (c1 := {| c_id := c_id c; c_recs := c_recs c ++ [r]; c_size := c_size c + rec_disk_size r; c_cfrm := c_cfrm c |}).
-      destruct (IH cfg c1 (it_next s') (S n) l' HRn ltac:(cbn in Hf; lia)) as (k & c' & s'' & e & Hrun & Hrecs & Hid & HR'' & Hk & He & _).
+      destruct (IH cfg c1 (it_next s') (S n) l' fl HRn ltac:(cbn in Hf; lia)) as (k & c' & s'' & e & Hrun & Hrecs & Hid & HR'' & Hk & He & _).
       exists (S k), c', s'', e. rewrite Hrun.
       replace (S n + k)%nat with (n + S k)%nat by lia.
       cbn [firstn skipn length]. subst c1. cbn [c_recs c_id] in *. rewrite <- app_assoc in Hrecs. cbn [app] in Hrecs.
-      repeat split; try assumption; try lia.
+      split; [reflexivity|]. split; [exact Hrecs|]. split; [exact Hid|]. split; [exact HR''|]. split; [lia|].
+      split; [intros Hne; destruct (He Hne) as [-> ->]; split; reflexivity|intros _ Hk0; lia].
 Qed.
 
-Lemma chunk_write_spec : forall fuel cfg c s l, Rep s l -> (length l < fuel)%nat ->
+Lemma chunk_write_spec : forall fuel cfg c s l fl, Rep s l fl -> (length l < fuel)%nat ->
   exists k c' s' e, chunk_write St it_get it_next fuel cfg c s = Ok (c', s', k, e) /\
-    c_recs c' = c_recs c ++ firstn k l /\ c_id c' = c_id c /\ Rep s' (skipn k l) /\ (k <= length l)%nat /\
-    (e = WNil -> k = length l) /\
-    (c_size c < max_chunk cfg -> k = O -> e = WNil /\ l = []) /\
+    c_recs c' = c_recs c ++ firstn k l /\ c_id c' = c_id c /\ Rep s' (skipn k l) fl /\ (k <= length l)%nat /\
+    (e <> WMaxSize -> k = length l /\ e = end_err fl) /\
+    (c_size c < max_chunk cfg -> k = O -> e = end_err fl /\ l = []) /\
     (max_chunk cfg <= c_size c -> k = O /\ e = WMaxSize /\ c' = c /\ s' = s).
 Proof.
-  intros fuel cfg c s l HR Hf. unfold chunk_write.
+  intros fuel cfg c s l fl HR Hf. unfold chunk_write.
   destruct (Z.leb_spec (max_chunk cfg) (c_size c)) as [Hfull|Hroom].
   - exists O, c, s, WMaxSize. cbn [firstn skipn]. rewrite app_nil_r.
-    repeat split; try assumption; try lia; try discriminate.
-  - destruct (cw_loop_spec fuel cfg c s O l HR Hf) as (k & c' & s' & e & Hrun & H1 & H2 & H3 & H4 & H5 & H6).
+    repeat split; try assumption; try lia; try congruence.
+  - destruct (cw_loop_spec fuel cfg c s O l fl HR Hf) as (k & c' & s' & e & Hrun & H1 & H2 & H3 & H4 & H5 & H6).
     exists k, c', s', e. rewrite Hrun. cbn [Nat.add].
     split; [reflexivity|]. split; [exact H1|]. split; [exact H2|]. split; [exact H3|]. split; [exact H4|].
     split; [exact H5|]. split; [exact H6|]. intros; lia.
 Qed.
 
-(* one round of journal.Write on a journal whose last chunk has room *)
-Lemma jw_round_room : forall rd fuel cfg j s ex l, Rep s l -> (length l < fuel)%nat ->
+(* one round of journal.Write on a journal whose last chunk has room: n > 0 is a success whatever stopped the
+   chunk writer; with nothing pending the round reports how the iterator ended *)
+Lemma jw_round_room : forall rd fuel cfg j s ex l fl, Rep s l fl -> (length l < fuel)%nat ->
   pick_chunk j ex <> [] -> c_size (last (pick_chunk j ex) (new_chunk j)) < max_chunk cfg ->
-  exists k j' s' pos, jw_loop St it_get it_next (S rd) fuel cfg j s ex = Ok (j', s', k, pos, WNil) /\
-    flat j' = flat (pick_chunk j ex) ++ firstn k l /\ Rep s' (skipn k l) /\ (k <= length l)%nat /\ (l <> [] -> (1 <= k)%nat).
+  exists k j' s' pos e, jw_loop St it_get it_next (S rd) fuel cfg j s ex = Ok (j', s', k, pos, e) /\
+    flat j' = flat (pick_chunk j ex) ++ firstn k l /\ Rep s' (skipn k l) fl /\ (k <= length l)%nat /\
+    (l <> [] -> (1 <= k)%nat /\ e = WNil) /\ (l = [] -> e = end_err fl).
 Proof.
-  intros rd fuel cfg j s ex l HR Hf Hne Hroom. cbn [jw_loop].
+  intros rd fuel cfg j s ex l fl HR Hf Hne Hroom. cbn [jw_loop].
   set (j1 := pick_chunk j ex) in *. set (c := last j1 (new_chunk j)) in *.
-  destruct (chunk_write_spec fuel cfg c s l HR Hf) as (k & c' & s' & e & Hrun & Hrecs & Hid & HR' & Hk & He & Hroom' & _).
+  destruct (chunk_write_spec fuel cfg c s l fl HR Hf) as (k & c' & s' & e & Hrun & Hrecs & Hid & HR' & Hk & He & Hroom' & _).
   rewrite Hrun. cbn [obind].
   pose proof (flat_last j1 (new_chunk j) Hne) as FL. fold c in FL.
   destruct (Nat.ltb_spec 0 k) as [Hpos|Hzero].
-  - eexists k, _, s', _. split; [reflexivity|].
+  - eexists k, _, s', _, WNil. split; [reflexivity|].
     rewrite flat_set_last by exact Hne. rewrite Hrecs. rewrite app_assoc. rewrite <- FL.
-    repeat split; try assumption. intros _. lia.
+    repeat split; try assumption; try lia. intros ->. cbn in Hk. lia.
   - assert (k = O) by lia. subst k. destruct (Hroom' Hroom eq_refl) as [-> ->].
-    eexists O, _, s', _. split; [reflexivity|].
+    eexists O, _, s', _, (end_err fl). split; [destruct fl; reflexivity|].
     rewrite flat_set_last by exact Hne. rewrite Hrecs. cbn [firstn]. rewrite !app_nil_r.
     rewrite <- FL.
-    repeat split; try assumption; try lia. congruence.
+    repeat split; try assumption; try lia; congruence.
 Qed.
 
 Lemma flat_pick j ex : flat (pick_chunk j ex) = flat j.
@@ -126,22 +135,24 @@ Proof.
   rewrite flat_app, flat_single. cbn. apply app_nil_r.
 Qed.
 
-(* journal.Write: for every chunk size > 0 a Write call appends a prefix of the pending records, and at
-   least one record when anything is pending; it never fails *)
-Theorem journal_write_spec : forall fuel cfg j s l, 0 < max_chunk cfg -> Rep s l -> (length l < fuel)%nat ->
-  exists k j' s' pos, journal_write St it_get it_next fuel cfg j s = Ok (j', s', k, pos, WNil) /\
-    flat j' = flat j ++ firstn k l /\ Rep s' (skipn k l) /\ (k <= length l)%nat /\ (l <> [] -> (1 <= k)%nat).
+(* journal.Write: for every chunk size > 0 a Write call appends a prefix of the pending records, at least one
+   record when anything is pending, and then it reports success; with nothing pending nothing changes and the
+   call reports how the iterator ended (nil after io.EOF, the iterator's error otherwise) *)
+Theorem journal_write_spec : forall fuel cfg j s l fl, 0 < max_chunk cfg -> Rep s l fl -> (length l < fuel)%nat ->
+  exists k j' s' pos e, journal_write St it_get it_next fuel cfg j s = Ok (j', s', k, pos, e) /\
+    flat j' = flat j ++ firstn k l /\ Rep s' (skipn k l) fl /\ (k <= length l)%nat /\
+    (l <> [] -> (1 <= k)%nat /\ e = WNil) /\ (l = [] -> e = end_err fl).
 Proof.
-  intros fuel cfg j s l Hmax HR Hf. unfold journal_write.
+  intros fuel cfg j s l fl Hmax HR Hf. unfold journal_write.
   destruct (pick_chunk_cases j 0%N) as [(Hp & Hne & Hid)|Hp].
   - (* the existing last chunk *)
     destruct (Z.ltb_spec (c_size (last j (new_chunk j))) (max_chunk cfg)) as [Hroom|Hfull].
-    + destruct (jw_round_room 2 fuel cfg j s 0%N l HR Hf) as (k & j' & s' & pos & H & Hfl & R);
+    + destruct (jw_round_room 2 fuel cfg j s 0%N l fl HR Hf) as (k & j' & s' & pos & e & H & Hfl & R);
         [rewrite Hp; exact Hne|rewrite Hp; exact Hroom|].
-      exists k, j', s', pos. rewrite flat_pick in Hfl. auto.
+      exists k, j', s', pos, e. rewrite flat_pick in Hfl. auto.
     + (* full: flushed, excluded, a fresh chunk takes the records *)
       cbn [jw_loop]. rewrite Hp.
-      destruct (chunk_write_spec fuel cfg (last j (new_chunk j)) s l HR Hf) as (k & c' & s' & e & Hrun & _ & _ & _ & _ & _ & _ & Hfl).
+      destruct (chunk_write_spec fuel cfg (last j (new_chunk j)) s l fl HR Hf) as (k & c' & s' & e & Hrun & _ & _ & _ & _ & _ & _ & Hfl).
       destruct (Hfl Hfull) as (-> & -> & -> & ->). rewrite Hrun. cbn [obind Nat.ltb Nat.leb].
       destruct (N.eqb_spec (c_id (last j (new_chunk j))) 0%N) as [E|_]; [contradiction|].
       set (j3 := set_last j (flush_chunk (last j (new_chunk j)))).
@@ -149,15 +160,15 @@ Proof.
       { unfold j3. rewrite flat_set_last by exact Hne. cbn [flush_chunk c_recs]. symmetry. apply flat_last. exact Hne. }
       assert (Hpick : pick_chunk j3 (c_id (last j (new_chunk j))) = j3 ++ [new_chunk j3]).
       { unfold pick_chunk, j3, set_last. rewrite rev_app_distr. cbn [rev app flush_chunk c_id]. rewrite N.eqb_refl. reflexivity. }
-      destruct (jw_round_room 1 fuel cfg j3 s (c_id (last j (new_chunk j))) l HR Hf) as (k & j' & s' & pos & H & Hfl' & R).
+      destruct (jw_round_room 1 fuel cfg j3 s (c_id (last j (new_chunk j))) l fl HR Hf) as (k & j' & s' & pos & e & H & Hfl' & R).
       * rewrite Hpick. destruct j3; discriminate.
       * rewrite Hpick, last_snoc. cbn. exact Hmax.
-      * exists k, j', s', pos. rewrite flat_pick, Hj3 in Hfl'. auto.
+      * exists k, j', s', pos, e. rewrite flat_pick, Hj3 in Hfl'. auto.
   - (* no chunk yet: a fresh one *)
-    destruct (jw_round_room 2 fuel cfg j s 0%N l HR Hf) as (k & j' & s' & pos & H & Hfl & R).
+    destruct (jw_round_room 2 fuel cfg j s 0%N l fl HR Hf) as (k & j' & s' & pos & e & H & Hfl & R).
     + rewrite Hp. destruct j; discriminate.
     + rewrite Hp, last_snoc. cbn. exact Hmax.
-    + exists k, j', s', pos. rewrite flat_pick in Hfl. auto.
+    + exists k, j', s', pos, e. rewrite flat_pick in Hfl. auto.
 Qed.
 
 End Refinement.
